@@ -36,6 +36,12 @@ def verify_anchors(prog: Program) -> List[str]:
     fp = prog.func("conversions._find_path_recursive")
     loops = [n for n in ast.walk(fp.node) if isinstance(n, ast.For)]
     p0 = fp.params()[0]
+    for n in ast.walk(fp.node):
+        # `exponent, start_root, end_root = _reduce_dimension(start, end)`: the search goes on from the reduced start
+        if isinstance(n, ast.Assign) and isinstance(n.value, ast.Call) and ast.unparse(n.value.func) == "_reduce_dimension" \
+                and isinstance(n.targets[0], ast.Tuple) and len(n.targets[0].elts) == 3 and isinstance(n.targets[0].elts[1], ast.Name) \
+                and n.value.args and ast.unparse(n.value.args[0]) == p0:
+            p0 = n.targets[0].elts[1].id
     ok1 = bool(loops) and all(ast.unparse(lp.iter).replace(" ", "") in (f"_ratios[{p0}].items()", f"_ratios[{p0}]", f"_ratios[{p0}].keys()")
                               for lp in loops if "_ratios" in ast.unparse(lp.iter)) and any("_ratios" in ast.unparse(lp.iter) for lp in loops)
     if not ok1:
@@ -60,7 +66,32 @@ def verify_anchors(prog: Program) -> List[str]:
     nodes = [n for fn in closure for n in ast.walk(fn)]
     transitive = any(q.split(".")[-1].startswith("_find_path") or q.endswith("_plan_conversion") for q in seen)
 
+    from .inline import expand_expr
+
+    import copy as _copy
+    single: Dict[str, ast.AST] = {}
+    counts: Dict[str, int] = {}
+    for fn_ in closure:
+        for st in ast.walk(fn_):
+            if isinstance(st, ast.Assign) and len(st.targets) == 1 and isinstance(st.targets[0], ast.Name):
+                counts[st.targets[0].id] = counts.get(st.targets[0].id, 0) + 1
+                single[st.targets[0].id] = st.value
+            elif isinstance(st, (ast.AugAssign, ast.For, ast.comprehension)):
+                for x in ast.walk(st.target):
+                    if isinstance(x, ast.Name):
+                        counts[x.id] = counts.get(x.id, 0) + 2
+
+    class _Deref(ast.NodeTransformer):
+        def visit_Name(self, n: ast.Name) -> ast.AST:
+            if isinstance(n.ctx, ast.Load) and counts.get(n.id) == 1 and isinstance(single.get(n.id), (ast.Call, ast.BinOp)):
+                return _copy.deepcopy(single[n.id])
+            return n
+
     def norm(x: ast.AST) -> str:
+        # helper predicates / measures (`_complexity(dimension) <= 1`) and single-definition locals (`count = len(unit.factors)`)
+        # are read through
+        if isinstance(x, ast.Compare):
+            x = expand_expr(prog, "conversions", _Deref().visit(_copy.deepcopy(x)))
         return ast.unparse(x).replace(" ", "")
     # the total-exponent test (inline, in a comprehension filter or in a helper predicate)
     skip = any(isinstance(n, ast.Compare) and "exponents" in norm(n) and "abs(" in norm(n)
@@ -108,11 +139,13 @@ def sheds_dimensionless(prog: Program) -> bool:
     inv_names = {t.id for n in ast.walk(cf.node) if isinstance(n, ast.Assign) for t in n.targets if isinstance(t, ast.Name)
                  and isinstance(n.value, ast.BinOp) and isinstance(n.value.op, ast.Pow) and ast.unparse(n.value.right) in ("-1", "(-1)")}
     for n in ast.walk(cf.node):
-        if isinstance(n, ast.If) and isinstance(n.test, ast.Compare) and len(n.test.ops) == 1 and isinstance(n.test.ops[0], (ast.Is, ast.Eq)):
+        if isinstance(n, ast.If) and isinstance(n.test, ast.Compare) and len(n.test.ops) == 1 and isinstance(n.test.ops[0], (ast.Is, ast.Eq, ast.IsNot, ast.NotEq)):
             sides = {ast.unparse(n.test.left), ast.unparse(n.test.comparators[0])}
             if sides & inv_names and len(sides) == 2:
+                # the arm taken when the dimension *is* its own inverse: the body of `is`, the else of `is not`
+                arm = n.body if isinstance(n.test.ops[0], (ast.Is, ast.Eq)) else n.orelse
                 emits = any(isinstance(c, ast.Call) and isinstance(c.func, ast.Attribute) and c.func.attr in ("append", "extend", "insert")
-                            for st in n.body for c in ast.walk(st)) or any(isinstance(st, ast.AugAssign) for st in n.body)
+                            for st in arm for c in ast.walk(st)) or any(isinstance(st, ast.AugAssign) for st in arm)
                 return not emits
     raise AnalysisError("conversions._cancel_factors no longer tests a dimension against its own inverse (anchor F4 of R09.3/R09.7 moved)")
 
